@@ -181,6 +181,9 @@ func (c *columnString) Apply(chunk commit.Chunk, r *commit.Reader) {
 			fill[offset>>6] |= 1 << (offset & 0x3f)
 			data[offset] = string(r.Bytes())
 		case commit.Merge:
+			if fill[offset>>6]&(1<<(offset&0x3f)) == 0 {
+				data[offset] = "" // no value yet, do not merge into what a deleted row left behind
+			}
 			fill[offset>>6] |= 1 << (offset & 0x3f)
 			data[offset] = r.SwapString(c.Merge(data[offset], r.String()))
 		case commit.Delete:
